@@ -178,6 +178,10 @@ func (g *graph) addNode(key string, node *graphNode, options *graphAddNodeOpts) 
 		return fmt.Errorf("node '%s' is reserved, cannot add manually", key)
 	}
 
+	if node == nil {
+		return fmt.Errorf("node '%s' is nil: no component, lambda or graph given", key)
+	}
+
 	if _, ok := g.nodes[key]; ok {
 		return fmt.Errorf("node '%s' already present", key)
 	}
